@@ -19,7 +19,7 @@ DECLS = [D('i', 'int', default=1), D('f', 'float', default=0.5), D('b', 'bool', 
 RULE = ('accepted texts over a fixed schema (scalars, lists, titled/multi/single sections that all declare include) split at item boundaries - also inside section bodies - into random '
         'include trees (depth 1..10 and chains up to the limit), files addressed relative to the working directory (also with a leading ~ that names no account), absolutely, or through 1-2 search-path directories (a decoy file of the same name in the directory added later, a directory of the same name in the one added first); the split parse must '
         'give the same tree as the flat text, leave include depth 0 and no open descriptor. Position cases: an error after an include (and inside included files) must carry the right file '
-        'name and line. Failure matrix: missing file, ENOTDIR, dangling symlink, directory, symlink loop, depth limit+1/+2, empty name, wrong arity, broken included file - 12+ failures in a '
+        'name and line. Failure matrix: missing file, ENOTDIR, dangling symlink, directory (also with trailing slash, through one and two symlinks), symlink loop, depth limit+1/+2, empty name, wrong arity, broken included file - 12+ failures in a '
         'row - each a reported parse error with descriptors balanced, then a good include into the same and a new context still works. '
         'non-trivial: include depth >= 2 or a failing include; distinct = case hash')
 
@@ -169,7 +169,7 @@ def gen_pos_case(rng, idx):
     return {'kind': 'pos', 'top': top, 'files': files, 'exp_file': exp_file, 'exp_line': exp_line, 'via_file': via_file, 'dir': 'p%d' % idx, 'where': where}
 
 
-FAIL_KINDS = ['missing', 'enotdir', 'dangling', 'directory', 'loop', 'deep11', 'deep12', 'empty-name', 'no-args', 'two-args', 'broken-file', 'open-string-file', 'missing-in-sp']
+FAIL_KINDS = ['missing', 'enotdir', 'dangling', 'directory', 'directory-slash', 'dirlink', 'dirlink2', 'loop', 'deep11', 'deep12', 'empty-name', 'no-args', 'two-args', 'broken-file', 'open-string-file', 'missing-in-sp']
 
 
 def gen_fail_case(rng, idx):
@@ -197,7 +197,7 @@ def gen(tier, seed):
 def fail_text(kind):
     return {
         'missing': 'include("nosuch.conf")\n', 'enotdir': 'include("good.conf/x")\n', 'dangling': 'include("dangling.conf")\n',
-        'directory': 'include("adir")\n', 'loop': 'include("loop1")\n', 'deep11': 'include("d11_0.conf")\n', 'deep12': 'include("d12_0.conf")\n',
+        'directory': 'include("adir")\n', 'directory-slash': 'include("adir/")\n', 'dirlink': 'include("adirlink")\n', 'dirlink2': 'include("./sub/../adirlink2")\n', 'loop': 'include("loop1")\n', 'deep11': 'include("d11_0.conf")\n', 'deep12': 'include("d12_0.conf")\n',
         'empty-name': 'include("")\n', 'no-args': 'include()\n', 'two-args': 'include("good.conf", "good.conf")\n',
         'broken-file': 'include("broken.conf")\n', 'open-string-file': 'include("openstr.conf")\ni = 5\n', 'missing-in-sp': 'include("only-in-cwd.conf")\n',
     }[kind]
@@ -250,6 +250,8 @@ def script(spec):
         L.append('mkfile %s %s' % (hx(d + '/openstr.conf'), hx('s = "never closed\n')))
         L.append('mkdir %s' % hx(d + '/adir'))
         L.append('symlink %s %s' % (hx('nowhere'), hx(d + '/dangling.conf')))
+        L.append('symlink %s %s' % (hx('adir'), hx(d + '/adirlink')))           # a symlink to a directory
+        L.append('symlink %s %s' % (hx('adirlink'), hx(d + '/adirlink2')))      # ... and a symlink to that
         L.append('symlink %s %s' % (hx('loop2'), hx(d + '/loop1')))
         L.append('symlink %s %s' % (hx('loop1'), hx(d + '/loop2')))
         for n in (11, 12):
@@ -258,7 +260,7 @@ def script(spec):
                 L.append('mkfile %s %s' % (hx(d + '/d%d_%d.conf' % (n, k)), hx('# level %d\n%s' % (k, nxt))))
         if spec['sp']:
             # same fixtures reachable through the search path
-            for nm in ('broken.conf', 'openstr.conf', 'dangling.conf', 'loop1', 'loop2', 'adir'):
+            for nm in ('broken.conf', 'openstr.conf', 'dangling.conf', 'loop1', 'loop2', 'adir', 'adirlink', 'adirlink2'):
                 L.append('symlink %s %s' % (hx('../' + nm), hx(d + '/sp1/' + nm)))
             for n in (11, 12):
                 for k in range(n):
